@@ -140,6 +140,12 @@ func (h *echoHandler) EndBatch(e *agent.EndBatch) error {
 
 func (h *echoHandler) Stop() { close(h.a.Responses) }
 
+func (h *echoHandler) seenCount() int {
+	h.mu.Lock()
+	defer h.mu.Unlock()
+	return h.seen
+}
+
 func (h *echoHandler) Saw() []proto.Message {
 	h.mu.Lock()
 	defer h.mu.Unlock()
